@@ -35,7 +35,7 @@ def _scenario(draw, tier):
         if kind == "ensemble":
             k = draw(st.sampled_from(["advance", "advance", "restart", "restart"]))
             if k == "advance":
-                ops.append(["advance", draw(st.sampled_from([0, 1, 1, 2, 3, 5]))])
+                ops.append(["advance", lc.maybe_long(draw, draw(st.sampled_from([0, 1, 1, 2, 3, 5])), cfg)])
             else:
                 ops.append(["restart"])
             continue
@@ -45,7 +45,7 @@ def _scenario(draw, tier):
         if k == "step":
             ops.append(["step"])
         elif k == "advance":
-            ops.append(["advance", draw(st.one_of(st.sampled_from([0, 1, 2, 3, 4, 5, 7, 9, 10, 11]), st.integers(0, 120)))])
+            ops.append(["advance", lc.maybe_long(draw, draw(st.one_of(st.sampled_from([0, 1, 2, 3, 4, 5, 7, 9, 10, 11]), st.integers(0, 120))), cfg)])
         elif k == "mass":
             ops.append(["estimate_mass", draw(st.booleans())])
         elif k == "restart":
@@ -194,6 +194,7 @@ def execute(sc):
     c = rctx.new_run(cfg["seed"], faults=sc["faults"])
     seams.seed_global_streams(cfg["seed"])
     restarts = 0
+    ended = False
     steps_before_first_restart = None
     try:
         with seams.Seams(clock=seams.FakeClock()):
@@ -231,6 +232,7 @@ def execute(sc):
                         apply_one(P, op)
                     except (LibRaised, lc.StepExhausted, rctx.Runaway):
                         stats["primary_op_failed_history_ended"] += 1
+                        ended = True  # (the primary may have stopped part-way: the two are no longer comparable)
                         break
                     try:
                         apply_one(S, op)
@@ -247,7 +249,7 @@ def execute(sc):
                 finally:
                     pass
                 compare(V, P, S, "after %r (%d restarts so far)" % (op, restarts), stats)
-            if not V and sc["plots"] and restarts and P.length() >= 12:
+            if not V and not ended and sc["plots"] and restarts and P.length() >= 12:
                 plots(V, P, S, stats)
     finally:
         lc.cleanup_scratch()
